@@ -22,6 +22,7 @@ type Env struct {
 	tpkg   *types.Package
 	names  map[string]TV
 	lookup func(name string, st *State) (TV, bool)
+	fr     *frame                        // the frame under verification (select builtins)
 	param  func(name string) (TV, bool) // entry value of a parameter of the function under verification
 	addrOf func(name string) (string, *addr, types.Type, bool) // heap cell (or local slot) of a captured variable (closures)
 	cur    *State
